@@ -190,6 +190,11 @@ def c02(case, F):
             v.append((_sig(case, F, "not_flagged_broken"), witness_text(case, F, "executor not flagged broken although futures were failed with BrokenProcessPool")))
         if r.get("pids_alive") or r.get("pids_zombie"):
             waited = o_wait(F, e)
+            if waited and (case.get("config") or {}).get("sigchld_ignore"):
+                # a host that ignores SIGCHLD lets the kernel reap: waitpid cannot confirm a death (ECHILD), so join() may
+                # return while the SIGKILLed worker is still dying; what can be demanded there is that none survives the tree
+                surv = {p_["pid"] for p_ in (F.final.get("survivors") or [])}
+                waited = bool(surv & set(r.get("pids_alive") or []))
             if waited:
                 v.append((_sig(case, F, "workers_left_after_break"), witness_text(case, F, "after shutdown of the broken executor returned: alive=%s zombies=%s" % (r.get("pids_alive"), r.get("pids_zombie")))))
     surv = [p for p in (F.final.get("survivors") or []) if "popen_loky_posix" in (p.get("cmdline") or "")]
